@@ -445,9 +445,11 @@ def build_cases(R):
     cases += [gv.gen_store_case(R.rng, "memory", 24) for _ in range(n_store_mem)]
     cases += [gv.gen_store_case(R.rng, "redis", 16) for _ in range(n_store_redis)]
     grid = gv.grid_cases()
+    hgrid = gv.http_grid_cases()
     if quick:
         grid = R.rng.sample(grid, min(len(grid), 600))
-    return cases + grid
+        hgrid = R.rng.sample(hgrid, min(len(hgrid), 500))
+    return cases + grid + hgrid
 
 
 def evidence(R, corpus, cases, impl, model, timing):
